@@ -69,7 +69,7 @@ Ltac enum_size z :=
         | assert (Hin : In z (Zseq 1 16)) by (apply Zseq_in; simpl; lia)
         | assert (Hin : In z (Zseq 1 30)) by (apply Zseq_in; simpl; lia) ];
   simpl in Hin;
-  repeat (destruct Hin as [Hin | Hin]; [subst z|]); [..|contradiction].
+  repeat (destruct Hin as [Hin | Hin]; [rewrite <- Hin in *; clear Hin; try (exfalso; lia)|]); [..|contradiction].
 
 Ltac enum_sizes :=
   repeat match goal with
@@ -101,7 +101,7 @@ Ltac prep I :=
   | H : eval_bexpr _ _ _ _ = Some true |- _ => eval_preds H
   | H : lookup _ _ = Some (ASize _) |- _ => cbv [lookup String.eqb Ascii.eqb Bool.eqb] in H
   end;
-  norm_hyps; subst;
+  norm_hyps; list_len;
   enum_sizes;
   norm_hyps; list_len;
   unfold I.
